@@ -4,20 +4,34 @@ import io
 
 
 def testbench(design, simname='Simulation', seed=0, nsteps=3, add_reset=True, init_mode=1,
-              default_value=0):
+              default_value=0, synth=False):
     import random
     import pyrtl
     from fam import designs, simcheck, vlogcheck
     from spec import vsem
     from spec.cycle import rom_value
     block = designs.build(design)
-    nm = vlogcheck.name_map(block)
     steps = simcheck.stimuli(block, seed, nsteps)
     regmap, memmap = simcheck.init_state(block, seed, init_mode)
+    simmemmap = {m: dict(d) for m, d in memmap.items()}
+    if synth:
+        # simulate the synthesized copy; the memory map stays keyed by the ORIGINAL memories (the
+        # documented way to initialise a PostSynthBlock), registers start from reset / default
+        orig = block
+        with pyrtl.set_working_block(orig, no_sanity_check=True):
+            block = pyrtl.synthesize(update_working_block=False, block=orig)
+        regmap = {}
+        memmap = {block.mem_map[m]: d for m, d in memmap.items() if not isinstance(m, pyrtl.RomBlock)}
+        simmemmap = {m: dict(d) for m, d in simmemmap.items() if not isinstance(m, pyrtl.RomBlock)}
+        if simname == 'CompiledSimulation':
+            # CompiledSimulation refuses maps keyed by the pre-synthesis memories with a PyrtlError
+            # (an explicit refusal, not a divergence): it is given the copy's own memories
+            simmemmap = {block.mem_map[m]: d for m, d in simmemmap.items()}
+    nm = vlogcheck.name_map(block)
     tracer = pyrtl.SimulationTrace(block=block)
     kw = dict(default_value=default_value) if default_value else {}
     sim = getattr(pyrtl, simname)(tracer=tracer, register_value_map=dict(regmap),
-                                  memory_value_map={m: dict(d) for m, d in memmap.items()}, block=block,
+                                  memory_value_map=simmemmap, block=block,
                                   **kw)
     for s in steps:
         sim.step(dict(s))
